@@ -226,4 +226,3 @@ package aa
 //@   loop 2 invariant exists(k, 0, len(r), D(r[k])) == old(exists(k, 0, len(r), D(r[k])))
 //@   loop 2 decreases len(r) - j
 //@   ensures exists(k, 0, len(result), D(result[k])) == old(exists(k, 0, len(r), D(r[k])))
-
